@@ -221,6 +221,18 @@ Check (C16_v2_exact : forall C cv ad ls st s a c,
   /\ (let x := V2.absv C s a st in active x = true -> c_alive x = true ->
       c_got x ++ c_mbox x ++ filter_map (cv c) (held x ++ c_backlog x)
       = filter_map (cv c) (V2.pubs_after C s ls))).
+Check (C16_v2_nodup_one_per_actor : forall C cv ls st,
+  V2.run C cv false (V2.init C) ls = Some st ->
+  NoDup (map (V2.e_actor C) (V2.subscribers C st))).
+Check (C16_v1_subscribe_prunes_exactly : forall C cv cap ls st st' s a c,
+  V1.run C cv cap (V1.init C) ls = Some st ->
+  V1.step C cv cap st (V1.LSubscribe s a c) = Some st' ->
+  V1.handles C st' = filter (V1Handles.alive C (V1.tasks C st')) (V1.order C st')
+  /\ (forall h, In h (V1.handles C st') -> V1.is_dead C st' h = false)).
+(* non-vacuity: a reachable v2 no-duplicate state with a replaced subscription, and the
+   statement's failure for the public flag value *)
+Check (V2NoDup.nodup_replaces).
+Check (V2NoDup.two_subs_refuted).
 Check (C16_v1_dead_subscriber_inert : forall C cv cap ls1 ls2 st1 st2 s a c,
   V1.run C cv cap (V1.init C) ls1 = Some st1 -> V1.run C cv cap (V1.init C) ls2 = Some st2 ->
   V1.conv_of C s ls1 = Some (a, c) -> V1.conv_of C s ls2 = Some (a, c) ->
